@@ -209,6 +209,25 @@ reg('C02', 'translation_validation',
     'properties are only read into double contexts; % only on non-negative '
     'operands.')
 
+reg('C03', 'exploration',
+    'differential trace monitoring: recorder equations log every hook call '
+    '(equation, hook, source array/index/tag, neighbour count) per destination '
+    'particle and Python callables log events with array digests, in the '
+    'compiled evaluator and in a reference interpreter of the documented group '
+    'semantics run on an identical world; traces must be equal',
+    'Held on every generated group tree after the template fix: per quick run '
+    '48 programs x 3 computes (thorough 640) of 3-6 groups, a quarter with '
+    'sub-groups, over 2-3 arrays with Remote and periodic Ghost particles, '
+    'varying real, start_idx/stop_idx (numbers and constants), iterate with '
+    'min/max and delayed convergence, condition, pre, post, update_nnps with '
+    'moving particles, any subset of the seven hooks.  Found and fixed in '
+    '/repo: the sub-group branch of the template ignored the indent level '
+    '(parent condition / iterate did not enclose pre, post, update_nnps and '
+    'conditional sub-groups).',
+    'The interpreter takes neighbours from its own LinkedListNNPS on its '
+    'own arrays (C01); single OpenMP thread; min_iterations <= '
+    'max_iterations.')
+
 _pending = {
 }
 for _i in range(1, 21):
